@@ -392,49 +392,58 @@ async def open_child_case(case: dict[str, Any], sc: Scenario) -> None:
             outcome["child"] = e
             raise
 
+    class BlockFailed(Exception):
+        pass
+
     async def parent_task(tg: Any) -> None:
         try:
-            async with Context() as parent:
-                if case["nested"]:
-                    async with Context() as mid:
-                        tg2_parent = mid
-                        try:
-                            async with Context() as inner_parent:
-                                tg.start_soon(child_task, inner_parent)
-                                await child_open.wait()
-                        except BaseException as e:
-                            outcome["parent"] = e
-                        else:
-                            outcome["parent"] = None
-                        release.set()
-                        await anyio.sleep(1)
-                    return
-                given = parent
-                if case["explicit_parent"] == "component":
-                    # the child is given, as its explicit parent, the object a component of this context saw as current context
-                    from asphalt.core import Component, current_context, start_component
+            with CancelScope() as leave_scope:
+                async with Context() as parent:
+                    if case["nested"]:
+                        async with Context() as mid:
+                            tg2_parent = mid
+                            try:
+                                async with Context() as inner_parent:
+                                    tg.start_soon(child_task, inner_parent)
+                                    await child_open.wait()
+                            except BaseException as e:
+                                outcome["parent"] = e
+                            else:
+                                outcome["parent"] = None
+                            release.set()
+                            await anyio.sleep(1)
+                        return
+                    given = parent
+                    if case["explicit_parent"] == "component":
+                        # the child is given, as its explicit parent, the object a component of this context saw as current context
+                        from asphalt.core import Component, current_context, start_component
 
-                    seen: list[Any] = []
+                        seen: list[Any] = []
 
-                    class Keeper(Component):
-                        async def start(self) -> None:
-                            seen.append(current_context())
+                        class Keeper(Component):
+                            async def start(self) -> None:
+                                seen.append(current_context())
 
-                    await start_component(Keeper, timeout=None)
-                    given = seen[0]
-                if case["explicit_parent"] == "foreign_task":
-                    # the child is created - with this context as its explicit parent - by a task that lives in a context tree of its
-                    # own (its current context is an unrelated root)
-                    foreign_parent.append(given)
-                    parent_ready.set()
-                else:
-                    tg.start_soon(child_task, given)
-                await child_open.wait()
-                if case.get("child_phase") == "abandoned":
-                    import gc
+                        await start_component(Keeper, timeout=None)
+                        given = seen[0]
+                    if case["explicit_parent"] == "foreign_task":
+                        # the child is created - with this context as its explicit parent - by a task that lives in a context tree of its
+                        # own (its current context is an unrelated root)
+                        foreign_parent.append(given)
+                        parent_ready.set()
+                    else:
+                        tg.start_soon(child_task, given)
+                    await child_open.wait()
+                    if case.get("child_phase") == "abandoned":
+                        import gc
 
-                    await anyio.sleep(0.1)  # the child's task is over
-                    gc.collect()
+                        await anyio.sleep(0.1)  # the child's task is over
+                        gc.collect()
+                    if case.get("parent_leave") == "raise":
+                        raise BlockFailed("the parent's block failed")
+                    if case.get("parent_leave") == "cancel":
+                        leave_scope.cancel()
+                        await checkpoint()
         except BaseException as e:
             outcome["parent"] = e
         else:
@@ -460,6 +469,76 @@ async def open_child_case(case: dict[str, Any], sc: Scenario) -> None:
     sc.log.append(f"outcome: { {k: describe_exc(v) for k, v in outcome.items()} }")
     if outcome.get("parent") is None and "parent" in outcome and outcome.get("outer") is None:
         sc.bad("lifecycle-open-child-ignored", "a context was left while a child context entered from it was still open and no error was reported")
+    elif case.get("parent_leave"):
+        # the block's own exception (or the cancellation) is no report of the open child: a RuntimeError must have been raised as well
+        sc.inc("open_child_exit_cases_with_the_parent_block_ending_abnormally")
+        from vkit.trace import leaves as _leaves
+
+        seen_excs = _leaves(outcome.get("parent")) + _leaves(outcome.get("outer"))
+        if not any(isinstance(x, RuntimeError) for x in seen_excs):
+            sc.bad("lifecycle-open-child-ignored", f"a context was left by {case['parent_leave']} while a child context entered from it was still open: only "
+                                                   f"{[describe_exc(x) for x in seen_excs]} came out, the open child was not reported")
+
+
+async def pending_cancel_case(case: dict[str, Any], sc: Scenario) -> None:
+    """the block of a context is left *normally*, but its surrounding scope has just been cancelled and the cancellation has not
+    been delivered yet (the last thing the block did was to cancel it; no checkpoint since): the context is left like any other -
+    torn down and closed - however and whenever the cancellation then strikes"""
+    from asphalt.core import Context, NoCurrentContext, current_context
+
+    ran: list[str] = []
+    observed: dict[str, Any] = {}
+
+    async def inner_part() -> Any:
+        ctx = Context()
+        with CancelScope() as scope:
+            try:
+                async with ctx:
+                    ctx.add_resource(TA(), "kept")
+                    ctx.add_teardown_callback(lambda: ran.append("sync"))
+                    if case["async_callback"]:
+                        async def slow() -> None:
+                            ran.append("async-begin")
+                            await checkpoint()
+                            ran.append("async-end")
+
+                        ctx.add_teardown_callback(slow)
+                    scope.cancel()
+            except BaseException as e:
+                observed["leave"] = e
+        return ctx
+
+    async def probe(ctx: Any, expected_current: Any) -> None:
+        sc.inc("blocks_left_normally_with_a_cancellation_pending")
+        if ctx.closed is not True:
+            sc.bad("lifecycle-closed-flag[after]", f"a context whose block was left normally with a cancellation pending reports closed={ctx.closed!r}")
+        if "sync" not in ran:
+            sc.bad("lifecycle-teardown-set", f"a context whose block was left normally with a cancellation pending never ran its teardown callbacks: {ran}")
+        try:
+            ctx.add_resource(TB(), "late")
+            sc.bad("lifecycle-wrongly-accepted[closed_cancelled,add_resource]", "add_resource() was accepted after the block had been left (normally, with a "
+                                                                                "cancellation pending)")
+        except RuntimeError:
+            sc.inc("rejected_calls_checked")
+        try:
+            cur = current_context()
+        except NoCurrentContext:
+            cur = None
+        if cur is not expected_current:
+            sc.bad("lifecycle-closed-flag[after]", "after the block was left the context is still the current one" if cur is ctx else
+                   "after the block was left the current context is neither the enclosing one nor none")
+
+    if case["nested"]:
+        try:
+            async with Context() as parent:
+                ctx = await inner_part()
+                await probe(ctx, parent)
+        except BaseException as e:
+            sc.bad("lifecycle-open-child-ignored", f"leaving the enclosing context afterwards raised {describe_exc(e)}")
+    else:
+        ctx = await inner_part()
+        await probe(ctx, None)
+    sc.log.append(f"ran={ran} leave={describe_exc(observed.get('leave'))}")
 
 
 async def busy_exit_case(case: dict[str, Any], sc: Scenario) -> None:
@@ -613,8 +692,15 @@ def matrix_cells() -> list[dict[str, Any]]:
         if (explicit in ("component", "foreign_task") or phase == "abandoned") and nested:
             continue
         cells.append({"kind": "open_child", "nested": nested, "explicit_parent": explicit, "backend": backend, "falsy_contexts": falsy, "child_phase": phase})
+        if not nested:
+            # ... and the same with the parent's block ending by an exception or by a cancellation instead of normally
+            for leave in ("raise", "cancel"):
+                cells.append({"kind": "open_child", "nested": nested, "explicit_parent": explicit, "backend": backend, "falsy_contexts": falsy,
+                              "child_phase": phase, "parent_leave": leave})
     for ending, nested, backend in itertools.product(["clean", "cancelled"], [False, True], ["asyncio", "trio"]):
         cells.append({"kind": "busy_exit", "ending": ending, "nested": nested, "backend": backend})
+    for nested, async_cb, backend in itertools.product([False, True], [False, True], ["asyncio", "trio"]):
+        cells.append({"kind": "pending_cancel", "nested": nested, "async_callback": async_cb, "backend": backend})
     for siblings, explicit, early, backend in itertools.product([2, 3], [False, True], [False, True], ["asyncio", "trio"]):
         cells.append({"kind": "equal_siblings", "siblings": siblings, "explicit_parent": explicit, "leave_parent_early": early, "backend": backend})
     for nested, backend in itertools.product([False, True], ["asyncio", "trio"]):
@@ -653,6 +739,8 @@ def run_case(case: Any) -> dict[str, Any]:
             run_virtual(case["backend"], equal_siblings_case, case, sc)
         elif case["kind"] == "busy_exit":
             run_virtual(case["backend"], busy_exit_case, case, sc)
+        elif case["kind"] == "pending_cancel":
+            run_virtual(case["backend"], pending_cancel_case, case, sc)
         else:
             run_virtual(case["backend"], sc.main, sched_seed=case.get("sched_seed", 0))
     except VirtualDeadlock as e:
@@ -667,7 +755,7 @@ def run_case(case: Any) -> dict[str, Any]:
     sample = None
     if case["kind"] == "random" and rej and acc and len(sc.log) > 8:
         sample = {"case": case, "log": sc.log[:30]}
-    return {"violations": sc.V[:5], "sig": case, "nontrivial": bool(rej and acc) or case["kind"] in ("open_child", "cell", "equal_siblings", "busy_exit"),
+    return {"violations": sc.V[:5], "sig": case, "nontrivial": bool(rej and acc) or case["kind"] in ("open_child", "cell", "equal_siblings", "busy_exit", "pending_cancel"),
             "counters": sc.counters, "sample": sample}
 
 
